@@ -175,6 +175,32 @@ def v_altloc(items, which, key):
     return before + a + b + after
 
 
+def v_altloc3(items, which, key):
+    """Three alternate locations A/B/C for one protein residue; the last atom
+    of the residue is missing from the A copy (so it must be topped up from B
+    or C, which disagree about its position)."""
+    res = [r for r in P.residues(items) if r[0][3] in PROTEIN_RES]
+    if not res:
+        return None
+    victim = res[which % len(res)]
+    vs = victim[1]
+    if len(vs) < 5:
+        return None
+    copies = []
+    for tag, amp in (('A', 0.0), ('B', 0.4), ('C', 0.7)):
+        for n, i in enumerate(vs):
+            if tag == 'A' and n == len(vs) - 1:
+                continue
+            it = items[i][1]
+            u = P.det_unit('alt3', key, tag, n)
+            copies.append(('A', it.with_altloc(tag).with_xyz(it.x + (u[0]-.5)*amp,
+                                                              it.y + (u[1]-.5)*amp,
+                                                              it.z + (u[2]-.5)*amp)))
+    before = [x for i, x in enumerate(items) if i < vs[0]]
+    after = [x for i, x in enumerate(items) if i > vs[-1]]
+    return before + copies + after
+
+
 def v_models(items, key):
     atoms = [x for x in items if x[0] == 'A']
     m2 = v_jitter(atoms, ('model', key), amp=0.25)
@@ -410,6 +436,7 @@ def _family(fam, base, inputs, nvar, salt):
         ('blank', lambda: v_blank_chain(base)),
         ('h36', lambda: list(base)),
         ('unkc', lambda: v_unknown_element_in_ring(base)),
+        ('alt3', lambda: v_altloc3(base, salt + 4, fam)),
     ]
     for j in range(nvar):
         tag, fn = makers[(salt + j * 3) % len(makers)]
